@@ -124,6 +124,12 @@ def getattr_obj(I, obj, ty, name):
         has_field = name in present
     else:
         has_field = name in declared_fields(I, ty)
+    if has_field and key in ctx.partial_objs and name not in ty.fields:
+        pv = ctx.ghost.get(("field-value", key, name))
+        if pv is not None:
+            return pv
+        shape = ctx.ghost.get(("field-shape", key), {}).get(name)
+        return SV(ctx.load_raw(ctx.ref_id(obj), name), shape)
     if has_field:
         if key not in ctx.partial_objs and ty.fields and name not in ty.fields and not getattr(ty, "open_shape", False):
             raise Unsupported("attribute %s of %s is assigned by __init__ but not described by the contract's shape (contract does not cover this code)" % (name, ty.cls.key))
@@ -196,6 +202,26 @@ def getattr_super(I, sp, name):
     raise _attr_error(I, obj, name)
 
 
+def materialise_for(I, v, fty):
+    """a display of known size stored where the shape speaks of a heap container: the same content as a heap object"""
+    ctx = I.ctx
+    fty = ctx.resolve_ty(fty) if fty is not None else None
+    if isinstance(v, VDict) and getattr(v, "sym", None) is None and isinstance(fty, TMap):
+        m = ctx.alloc(None, fty)
+        idt = ctx.ref_id(m)
+        ctx.store_raw(idt, "$cls", z3.IntVal(ctx.E.classes.cid("abs:$dict")))
+        ctx.heap["$mhas"] = z3.Store(ctx.field_array("$mhas"), idt, z3.K(Z.Val, z3.BoolVal(False)))
+        ctx.heap["$len"] = z3.Store(ctx.field_array("$len"), idt, z3.IntVal(0))
+        ctx.assume_class(m.t, fty)
+        for k, x in v.items.items():
+            I.B.map_set(I, m, k, x)
+        v.sym = m
+        return m
+    if isinstance(v, (VList, VTuple)) and isinstance(fty, TSeq):
+        return I.B.materialise_seq(I, v, fty)
+    return v
+
+
 def setattr_(I, obj, name, v):
     ctx = I.ctx
     if isinstance(obj, SV):
@@ -209,15 +235,22 @@ def setattr_(I, obj, name, v):
                     raise _attr_error(I, obj, name)
                 I.call(BoundMethod(obj, mem.setter, owner), [v], {})
                 return
-            sv = ctx.to_val(v)
             fty = ty.fields.get(name)
+            v = materialise_for(I, v, fty)
+            sv = ctx.to_val(v)
             if fty is not None and not isinstance(fty, TAny):
                 ctx.oblige("fieldtype[%s.%s]" % (ty.cls.name, name), ctx.resolve_ty(fty).inv(sv.t, goal=True), kind="type")
             ctx.store_raw(ctx.ref_id(obj), name, sv.t)
             ctx.wrote(name, ctx.ref_id(obj))
             key = obj_key(ctx, obj)
+            if ctx.store_hook is not None and key not in ctx.partial_objs:
+                ctx.store_hook("field-store:" + name)
             if key in ctx.partial_objs:
                 ctx.present.setdefault(key, set()).add(name)
+                # remember the shape of what was stored into an object built on this path
+                ctx.ghost.setdefault(("field-shape", key), {})[name] = sv.ty if isinstance(v, SV) else None
+                if not isinstance(v, SV):
+                    ctx.ghost[("field-value", key, name)] = v
             else:
                 if name not in declared_fields(I, ty) and name not in getattr(ty, "extra_fields", ()):
                     ctx.note("store creates new attribute %s on %s" % (name, ty.cls.key))
